@@ -40,11 +40,25 @@ var baselineFuncs = func() map[string]string {
 		if l = strings.TrimSpace(l); l == "" || strings.HasPrefix(l, "#") {
 			continue
 		}
+		if strings.HasPrefix(l, "type:") {
+			continue
+		}
 		parts := strings.SplitN(l, "\t", 2)
 		if len(parts) == 2 {
 			m[parts[0]] = parts[1]
 		} else {
 			m[parts[0]] = ""
+		}
+	}
+	return m
+}()
+
+// baselineTypes: pkg.Name of every named type at the pinned commit.
+var baselineTypes = func() map[string]bool {
+	m := map[string]bool{}
+	for _, l := range strings.Split(baselineFuncsTxt, "\n") {
+		if l = strings.TrimSpace(l); strings.HasPrefix(l, "type:") {
+			m[strings.SplitN(strings.TrimPrefix(l, "type:"), "\t", 2)[0]] = true
 		}
 	}
 	return m
@@ -1826,13 +1840,13 @@ func (in *inliner) captureCheck(p *packages.Package, callerFile *ast.File, call 
 }
 
 // normaliseHelpers runs inlining rounds until nothing changes. Returns the world to analyse.
-func normaliseHelpers(w *World, repo string, overlay map[string][]byte, extraEnv []string) *World {
+func normaliseHelpers(w *World, repo string, overlay map[string][]byte, extraEnv []string) (*World, map[string][]byte) {
 	in := &inliner{w: w, overlay: map[string][]byte{}, stuck: map[string]bool{}, inlined: map[string]int{}}
 	for k, v := range overlay {
 		in.overlay[k] = v
 	}
 	if len(in.candidates()) == 0 {
-		return w
+		return w, overlay
 	}
 	cur := w
 	for round := 0; round < 12; round++ {
@@ -1845,7 +1859,7 @@ func normaliseHelpers(w *World, repo string, overlay map[string][]byte, extraEnv
 		if err != nil {
 			cur.Notes = append(cur.Notes, in.notes...)
 			cur.Notes = append(cur.Notes, "helper normalisation stopped: "+err.Error())
-			return cur
+			return cur, in.overlay
 		}
 		next, err := loadWorldRaw(repo, ov, extraEnv)
 		if err != nil {
@@ -1859,7 +1873,7 @@ func normaliseHelpers(w *World, repo string, overlay map[string][]byte, extraEnv
 					_ = os.WriteFile("/tmp/inline_debug_"+strings.ReplaceAll(strings.TrimPrefix(f, "/"), "/", "_"), b, 0o644)
 				}
 			}
-			return cur
+			return cur, in.overlay
 		}
 		next.Notes = cur.Notes
 		in.overlay = ov
@@ -1867,5 +1881,10 @@ func normaliseHelpers(w *World, repo string, overlay map[string][]byte, extraEnv
 	}
 	sort.Strings(in.notes)
 	cur.Notes = append(cur.Notes, in.notes...)
-	return cur
+	if d := os.Getenv("GOCHK_DUMP_OVERLAY"); d != "" {
+		for f, b := range in.overlay {
+			_ = os.WriteFile(d+"/"+strings.ReplaceAll(strings.TrimPrefix(f, "/"), "/", "_"), b, 0o644)
+		}
+	}
+	return cur, in.overlay
 }
